@@ -660,11 +660,17 @@ func (se *SpecEnv) evalCall(x *ECall) Value {
 	if sf, ok := se.e.prog.specFn[se.pkg+"."+id.Name]; ok {
 		return se.callSpec(sf, x.Args)
 	}
+	objOf := func(a Value) string {
+		if a.Sort == "Val" {
+			return app("valref", a.T) // a ghost of an interface value belongs to the object behind it
+		}
+		return a.T
+	}
 	if g, ok := se.e.prog.ghosts[id.Name]; ok && g.Key != nil && len(x.Args) == 1 && g.Key2 == nil {
-		return se.ghostGet(g, se.eval(x.Args[0]).T)
+		return se.ghostGet(g, objOf(se.eval(x.Args[0])))
 	}
 	if g, ok := se.e.prog.ghosts[id.Name]; ok && g.Key2 != nil && len(x.Args) == 2 {
-		return se.ghostGet2(g, se.eval(x.Args[0]).T, se.eval(x.Args[1]).T)
+		return se.ghostGet2(g, objOf(se.eval(x.Args[0])), se.eval(x.Args[1]).T)
 	}
 	// conversion to a basic or package type
 	if o := types.Universe.Lookup(id.Name); o != nil {
@@ -833,7 +839,7 @@ func (se *SpecEnv) ghostGet(g *GhostVar, obj string) Value {
 // streamGhost: ghost variables of the byte-stream / file model (read through the recorded store chain).
 func streamGhost(name string) bool {
 	switch name {
-	case "bufr", "bufw", "bufdata", "fdata", "fsize", "fpos":
+	case "bufr", "bufw", "bufdata", "fdata", "fsize", "fpos", "rdata", "rpos", "rend":
 		return true
 	}
 	return false
